@@ -44,6 +44,13 @@ func (ex *Exec) evalCall(e *ast.CallExpr, st *State) Value {
 				ex.suppress--
 				return v
 			}
+		case "rangeidx":
+			if _, isFn := ex.objOf(id).(*types.Func); isFn && ex.isPrelude(ex.objOf(id)) {
+				if len(ex.rangeIdx) == 0 {
+					unsupported("rangeidx() outside a range loop over a slice of unknown length at %s", ex.pos(e.Pos()))
+				}
+				return ex.load(st, ex.rangeIdx[len(ex.rangeIdx)-1]).(*Term)
+			}
 		case "cancelled":
 			if _, isFn := ex.objOf(id).(*types.Func); isFn && ex.isPrelude(ex.objOf(id)) {
 				return ex.load(st, ex.cancelLoc()).(*Term)
@@ -110,16 +117,34 @@ func (ex *Exec) evalCall(e *ast.CallExpr, st *State) Value {
 				fv := ex.eval(e.Args[0], st).(*FuncV)
 				sig := ex.typeOf(fv.Lit).(*types.Signature)
 				pt := sig.Params().At(0).Type()
-				bs, ok := scalarSort(pt)
-				if !ok {
-					unsupported("quantified variable must be a scalar")
+				// one bound variable per scalar leaf (a struct-typed variable is a tuple of them)
+				var bvs []*Term
+				var mk func(t types.Type, name string) Value
+				mk = func(t types.Type, name string) Value {
+					if bs, ok := scalarSort(t); ok {
+						bv := ex.ts.Fresh("q."+name, bs)
+						bvs = append(bvs, bv)
+						return bv
+					}
+					if stt, ok := t.Underlying().(*types.Struct); ok {
+						sv := &StructV{Fields: make([]Value, stt.NumFields())}
+						for i := range sv.Fields {
+							sv.Fields[i] = mk(stt.Field(i).Type(), name+"."+stt.Field(i).Name())
+						}
+						return sv
+					}
+					unsupported("quantified variable of type %s", t)
+					return nil
 				}
-				bv := ex.ts.Fresh("q."+sig.Params().At(0).Name(), bs)
+				arg := mk(pt, sig.Params().At(0).Name())
 				s2 := st.fork(st.pc)
 				ex.suppress++
-				body := ex.callFunc(fv, []Value{bv}, s2, e).(*Term)
+				body := ex.callFunc(fv, []Value{arg}, s2, e).(*Term)
 				ex.suppress--
-				return ex.ts.Forall(bv, body)
+				for i := len(bvs) - 1; i >= 0; i-- {
+					body = ex.ts.Forall(bvs[i], body)
+				}
+				return body
 			case "forallRange", "existsRange":
 				return ex.callQuantRange(id.Name == "forallRange", e, st)
 			case "ite":
